@@ -5,7 +5,7 @@
    NewAnnounceTxnsMessage / NewGetTxnsMessage; `send_refused` = sendMessage's test
    len(EncodeMessage(m)) > max, where len(EncodeMessage(m)) = 4-byte length prefix +
    4-byte id + body). The model is compared with the implementation on every check. *)
-From Sky Require Import Base.Uint Model.Truncate Proofs.TruncateProofs.
+From Sky Require Import Base.Uint Model.Truncate Gen.MsgTruncate Proofs.TruncateProofs Proofs.TruncateRefine.
 From Coq Require Import List.
 Import ListNotations.
 Open Scope Z_scope.
@@ -42,6 +42,48 @@ Print Assumptions C23_no_panic.
 Theorem C23_no_u64_wrap : forall xs : list Z, sizes_ok xs -> encode_size xs = EMPTY_SIZE + sum xs.
 Proof. exact no_u64_wrap. Qed.
 Print Assumptions C23_no_u64_wrap.
+
+(* ---- the model IS the code: the hand-written truncate_loop / truncate_hashes of
+   Model/Truncate.v are EQUAL to the Gallina regenerated from src/daemon/messages.go
+   on every run (Gen/MsgTruncate.v, translator/stage3.go: truncateGivePeersMessage,
+   truncateGiveBlocksMessage, truncateGiveTxnsMessage over the list of the items'
+   encoded sizes; truncateAnnounceTxnsHashes / truncateGetTxnsHashes /
+   truncateSHA256Slice over the number of hashes), for ALL size lists / counts and
+   ALL uint64 maxMsgLength; a slice has fewer than 2^63 elements (Go's int).
+   Result of the regenerated function: the number of items kept (kept_Z turns the
+   model's nat into Z). Conventions of the regenerated unit (stated at its top and
+   in the trusted base): m.EncodeSize() = size of the empty message (4) + the sum of
+   the item sizes; a slice of hashes is its length.
+   A change of meaning in one of these Go functions breaks a proof obligation here. *)
+Theorem C23_GivePeers_is_translated : forall xs max, in_u 64 max -> Z.of_nat (length xs) < 2 ^ 63 ->
+  truncateGivePeersMessage EMPTY_SIZE xs max = kept_Z (truncate_loop xs max).
+Proof. exact GivePeers_refines. Qed.
+Print Assumptions C23_GivePeers_is_translated.
+
+Theorem C23_GiveBlocks_is_translated : forall xs max, in_u 64 max -> Z.of_nat (length xs) < 2 ^ 63 ->
+  truncateGiveBlocksMessage EMPTY_SIZE xs max = kept_Z (truncate_loop xs max).
+Proof. exact GiveBlocks_refines. Qed.
+Print Assumptions C23_GiveBlocks_is_translated.
+
+Theorem C23_GiveTxns_is_translated : forall xs max, in_u 64 max -> Z.of_nat (length xs) < 2 ^ 63 ->
+  truncateGiveTxnsMessage EMPTY_SIZE xs max = kept_Z (truncate_loop xs max).
+Proof. exact GiveTxns_refines. Qed.
+Print Assumptions C23_GiveTxns_is_translated.
+
+Theorem C23_AnnounceTxns_is_translated : forall count max, in_u 64 max -> 0 <= count < 2 ^ 63 ->
+  truncateAnnounceTxnsHashes EMPTY_SIZE count max = truncate_hashes count max.
+Proof. exact AnnounceTxns_refines. Qed.
+Print Assumptions C23_AnnounceTxns_is_translated.
+
+Theorem C23_GetTxns_is_translated : forall count max, in_u 64 max -> 0 <= count < 2 ^ 63 ->
+  truncateGetTxnsHashes EMPTY_SIZE count max = truncate_hashes count max.
+Proof. exact GetTxns_refines. Qed.
+Print Assumptions C23_GetTxns_is_translated.
+
+(* the size convention of the regenerated unit is the model's encode_size *)
+Theorem C23_encode_size_is_translated : forall xs, msg_encode_size EMPTY_SIZE xs = encode_size xs.
+Proof. exact msg_encode_size_eq. Qed.
+Print Assumptions C23_encode_size_is_translated.
 
 (* non-vacuity, and defect F18 of the tree before the fix (the truncate
    functions reserved 4 bytes where the wire format adds 8): 3 hashes, max 72:
